@@ -31,6 +31,7 @@ func cls(err error) int64 {
 		c   int64
 	}{
 		{"corrupted index block, invalid varint", 15},
+		{"corrupted index block, restarts", 16},
 		{"corrupted index block, len", 1},
 		{"corrupted index block, no restart", 2},
 		{"truncated restarts", 3},
@@ -490,11 +491,8 @@ func runIndex(ops SL) Result {
 						return L(I(cls(err)))
 					}
 					if len(kept) > 0 && w.LastID() == 0 {
-						// recovery corner: the whole last block exceeded the limit (see report)
-						tags["trim-emptied-block"] = true
-						if len(list) == 0 || list[0] <= limit {
-							poisoned = true
-						}
+						// the whole last block exceeded the limit (repaired in /repo bb1fc7bf: falls back to the previous block)
+						orc.failf("newIndexWriter(limit %d): lastID = 0 although ids <= limit are stored (last kept %d)", limit, last(kept))
 					}
 					cur := kept
 					for _, id := range list {
@@ -511,9 +509,10 @@ func runIndex(ops SL) Result {
 						}
 						cl = append(cl, I(c))
 					}
-					if len(cur) == len(kept) && k < len(ref) && !poisoned {
-						// nothing appended after a trim: finish() may write nothing (stale tail stays)
-						tags["trim-without-append"] = true
+					if len(cur) == 0 && k < len(ref) && !poisoned {
+						// documented latent corner: every stored id exceeded the limit and nothing was
+						// appended: finish() writes nothing and the stale ids stay (callers always append)
+						tags["trim-all-without-append"] = true
 						poisoned = true
 					}
 					ref = cur
@@ -528,8 +527,7 @@ func runIndex(ops SL) Result {
 						return L(I(cls(err)))
 					}
 					if len(kept) > 0 && d.LastID() == 0 {
-						tags["trim-emptied-block"] = true
-						poisoned = true
+						orc.failf("newIndexDeleter(limit %d): lastID = 0 although ids <= limit are stored (last kept %d)", limit, last(kept))
 					}
 					cur := kept
 					for _, id := range list {
@@ -1155,11 +1153,6 @@ func genBadWriter(r *Rng) Sx {
 		if r.Chance(1, 8) {
 			entries = uint16(r.Intn(600)) // a lying descriptor
 		}
-		// excluded shape (reported candidate finding): one restart section but a descriptor
-		// with entries%256 == 1, entries != 1: pop indexes restarts[-1]
-		if rs, _, err := pathdb.VerifC19ParseIndexBlock(bytes.Clone(blob)); err == nil && len(rs) == 1 && entries%256 == 1 && entries != 1 {
-			continue
-		}
 		limit := uint64(math.MaxUint64)
 		if r.Chance(1, 3) {
 			limit = pickQ(r, l)
@@ -1214,7 +1207,7 @@ func genBadStore(r *Rng) Sx {
 }
 
 func gen(r *Rng, tier string, emit func(Sx)) {
-	nBlock, nLong, nIndex, nBad, nBadStore := 350, 25, 30, 500, 60
+	nBlock, nLong, nIndex, nBad, nBadStore := 300, 20, 24, 400, 50
 	if tier == "thorough" {
 		nBlock, nLong, nIndex, nBad, nBadStore = 8000, 600, 800, 10000, 1200
 	}
@@ -1241,7 +1234,7 @@ func gen(r *Rng, tier string, emit func(Sx)) {
 func main() {
 	Main(Family{
 		ID:          "C19",
-		Rule:        "block sessions: random single/bulk appends (strictly ascending ids with 1..9-byte deltas, plus zero/out-of-order ids), single/bulk pops aimed at the 256-entry restart boundary, reopening from finish() bytes with and without a trimming limit, readGreaterThan/SeekGT+Next/full iteration on a reader over the bytes, byte dumps; index sessions over a memory store: writer sessions (filling several 4096-byte blocks), deleter sessions (popping across block boundaries, down to empty), limit-trimmed reopen, queries and store dumps after sessions; malformed stream: truncated/bit-flipped/continuation-byte/overflow/junk-extended blocks and random bytes through parseIndexBlock, parseIndex and the block reader, corrupted stores (metadata, dropped/swapped/corrupted blocks) through the index reader, corrupted blocks under a block writer (newBlockWriter with the original or a lying descriptor, with and without a trimming limit, then pops; one reported shape excluded). Non-trivial: a session of >= 3 operations, a malformed blob of >= 2 bytes, a malformed store with >= 1 descriptor; distinct = distinct case line.",
+		Rule:        "block sessions: random single/bulk appends (strictly ascending ids with 1..9-byte deltas, plus zero/out-of-order ids), single/bulk pops aimed at the 256-entry restart boundary, reopening from finish() bytes with and without a trimming limit, readGreaterThan/SeekGT+Next/full iteration on a reader over the bytes, byte dumps; index sessions over a memory store: writer sessions (filling several 4096-byte blocks), deleter sessions (popping across block boundaries, down to empty), limit-trimmed reopen, queries and store dumps after sessions; malformed stream: truncated/bit-flipped/continuation-byte/overflow/junk-extended blocks and random bytes through parseIndexBlock, parseIndex and the block reader, corrupted stores (metadata, dropped/swapped/corrupted blocks) through the index reader, corrupted blocks under a block writer (newBlockWriter with the original or a lying descriptor, with and without a trimming limit, then pops). Non-trivial: a session of >= 3 operations, a malformed blob of >= 2 bytes, a malformed store with >= 1 descriptor; distinct = distinct case line.",
 		Gen:         gen,
 		Run:         run,
 		CaseTimeout: 20 * time.Second,
